@@ -8,6 +8,11 @@ import traceback
 HERE = os.path.dirname(os.path.abspath(__file__))
 sys.path.insert(0, HERE)
 os.environ.setdefault('PYTHONHASHSEED', '0')
+# Seed testing only: STONE_VERIF_TREE points the harness (and the child processes it starts) at a scratch copy of dropbox/stone
+# instead of the installed /repo tree.  Registered commands never set it.
+if os.environ.get('STONE_VERIF_TREE'):
+    sys.path.insert(1, os.environ['STONE_VERIF_TREE'])
+    os.environ['PYTHONPATH'] = os.environ['STONE_VERIF_TREE'] + os.pathsep + os.environ.get('PYTHONPATH', '')
 
 CHECKS = {
     'C01': 'checks_sem.check_c01',
